@@ -284,6 +284,18 @@ impl Impl {
         }
     }
 }
+impl Impl {
+    /// moves the clock WITHOUT the eviction sweep (CommandExecutor::update_time_readonly, the read path's entry):
+    /// keys whose deadline has passed stay in the maps ("lazily expired") until something purges them
+    pub fn set_time_lazy(&mut self, t: u64) -> Result<(), String> {
+        self.now = t;
+        let ex = &mut self.ex;
+        match catch_unwind(AssertUnwindSafe(|| ex.update_time_readonly(VirtualTime::from_millis(t)))) {
+            Ok(()) => Ok(()),
+            Err(e) => { self.dead = true; Err(panic_text(e)) }
+        }
+    }
+}
 pub fn panic_text(e: Box<dyn std::any::Any + Send>) -> String {
     if let Some(s) = e.downcast_ref::<String>() { s.clone() } else if let Some(s) = e.downcast_ref::<&str>() { s.to_string() } else { "panic".into() }
 }
@@ -345,6 +357,50 @@ pub fn snapshot(im: &mut Impl, keys: &[&str]) -> Result<Snapshot, String> {
     Ok(out)
 }
 
+pub fn dump_of_value(v: &redis_sim::redis::Value) -> Dump {
+    use redis_sim::redis::Value;
+    match v {
+        Value::String(s) => Dump::S(s.as_bytes().to_vec()),
+        Value::List(l) => Dump::L(l.range(0, -1).iter().map(|s| s.as_bytes().to_vec()).collect()),
+        Value::Set(s) => { let mut m: Vec<B> = s.members().iter().map(|s| s.as_bytes().to_vec()).collect(); m.sort(); Dump::T(m) }
+        Value::Hash(h) => { let mut p: Vec<(B, B)> = h.get_all().iter().map(|(f, x)| (f.as_bytes().to_vec(), x.as_bytes().to_vec())).collect(); p.sort(); Dump::H(p) }
+        Value::SortedSet(z) => { let r = z.range(0, -1);
+            if r.iter().all(|(_, s)| s.is_finite() && s.fract() == 0.0 && s.abs() < 9.0e15) { Dump::Z(r.iter().map(|(m, s)| (m.as_bytes().to_vec(), *s as i64)).collect()) }
+            else { Dump::X("non-integer score".into()) } }
+        Value::Null => Dump::X("Value::Null".into()),
+    }
+}
+
+/// The visible keyspace read WITHOUT purging anything: EXISTS and PTTL (both `&self` in the executor, they only
+/// test the deadline), the stored value cloned from get_data(), DBSIZE and KEYS * (also `&self`).  A key past its
+/// deadline counts as absent.  Second component: the keys that are still stored although their deadline has
+/// passed (lazily expired, not yet evicted).
+pub fn snapshot_nopurge(im: &mut Impl, keys: &[&str]) -> Result<(Snapshot, Vec<String>), String> {
+    let mut out = Vec::new(); let mut stale = Vec::new();
+    for k in keys {
+        let ks = k.to_string();
+        let e = im.exec(&Command::Exists(vec![ks.clone()]))?;
+        let p = match im.exec(&Command::Pttl(ks.clone()))? { RespValue::Integer(i) => i, _ => i64::MIN };
+        let stored = im.ex.get_data().get(&ks).cloned();
+        match (&e, stored) {
+            (RespValue::Integer(1), Some(v)) => { if p < -1 { out.push((ks, Dump::X(format!("EXISTS 1 but PTTL {}", p)), p)); } else { out.push((ks, dump_of_value(&v), p)); } }
+            (RespValue::Integer(0), Some(_)) => { if p != -2 { out.push((ks.clone(), Dump::X(format!("EXISTS 0 but PTTL {}", p)), -2)); } stale.push(ks); }
+            (RespValue::Integer(0), None) => { if p != -2 { out.push((ks, Dump::X(format!("EXISTS 0 but PTTL {}", p)), -2)); } }
+            (o, s) => out.push((ks, Dump::X(format!("EXISTS {:?}, stored: {}", o, s.is_some())), -2)),
+        }
+    }
+    let n = im.exec(&Command::DbSize)?;
+    let mut all: Vec<Vec<u8>> = arr(&im.exec(&Command::Keys("*".into()))?).unwrap_or_default();
+    all.sort();
+    let mut seen: Vec<Vec<u8>> = out.iter().filter(|e| e.2 != -2).map(|e| e.0.as_bytes().to_vec()).collect();
+    seen.sort();
+    if n != RespValue::Integer(seen.len() as i64) || all != seen {
+        out.push(("*".to_string(), Dump::X(format!("DBSIZE {:?}, KEYS * {:?}, but EXISTS shows the keys {:?}", n, all.iter().map(|b| String::from_utf8_lossy(b).to_string()).collect::<Vec<_>>(),
+                                                     seen.iter().map(|b| String::from_utf8_lossy(b).to_string()).collect::<Vec<_>>())), -3));
+    }
+    Ok((out, stale))
+}
+
 pub fn dump_coq(d: &Dump) -> String {
     match d {
         Dump::S(b) => format!("(DS {})", chex(b)),
@@ -383,7 +439,9 @@ pub const FIELDS: [&[u8]; 5] = [b"f", b"g", b"", b"\xc3\xa9", b"n"];
 /// hot = error-provoking mode (C17): keys drawn uniformly (type conflicts), extreme integers and indices more often
 pub struct Gen<'a> { pub rng: &'a mut Rng, pub now: u64, pub deadlines: Vec<u64>, pub lens: Vec<i64>, pub hot: bool,
                      /// the visible keyspace after the last step (state-aware scenarios) and commands queued by a scenario
-                     pub state: Snapshot, pub pending: Vec<MCmd> }
+                     pub state: Snapshot, pub pending: Vec<MCmd>,
+                     /// keys still stored although their deadline has passed (clock moved without the eviction sweep)
+                     pub stale: Vec<String> }
 
 impl<'a> Gen<'a> {
     pub fn pick<T: Clone>(&mut self, l: &[T]) -> T { l[self.rng.gen_range(0..l.len())].clone() }
@@ -503,6 +561,25 @@ impl<'a> Gen<'a> {
     }
     /// state-aware scenarios (TTL transfer by RENAME, boundary ranges on the real length, emptying a collection that
     /// carries a TTL and re-creating the key); None when the current keyspace offers no candidate
+    /// a lazily expired key as source, destination or bystander of a two-key / multi-key command, or as the operand of
+    /// a single-key command that fails
+    fn stale_scenario(&mut self) -> Option<MCmd> {
+        use MCmd::*;
+        if self.stale.is_empty() { return None; }
+        let s = self.pick(&self.stale.clone());
+        let live: Vec<String> = self.state.iter().filter(|e| e.2 >= -1).map(|e| e.0.clone()).collect();
+        let l = if live.is_empty() || self.chance(0.15) { self.pick(&KEYS).to_string() } else { self.pick(&live) };
+        let v = self.val();
+        Some(match self.rng.gen_range(0..16) {
+            0..=2 => Rename(s, l), 3 => Rename(l, s), 4 => RenameNx(s, l), 5 => RenameNx(l, s),
+            6 => LMove(s, l, self.chance(0.5), self.chance(0.5)), 7 => LMove(l, s, self.chance(0.5), self.chance(0.5)),
+            8 => if self.chance(0.5) { RPopLPush(s, l) } else { RPopLPush(l, s) },
+            9 => MSetNx(vec![(s, v.clone()), (l, v)]), 10 => if self.chance(0.5) { Del(vec![s, l]) } else { MGet(vec![s, l]) },
+            11 => LSet(s, 0, v), 12 => if self.chance(0.5) { Exists(vec![s, l]) } else { Ttl(s) },
+            // a failing single-key command while the lazily expired key stands by
+            13 => IncrBy(l, i64::MAX), 14 => LSet(l, 99, v), _ => Set(s, v, XOpt::KeepTtl, false, false, self.chance(0.5)),
+        })
+    }
     fn scenario(&mut self) -> Option<MCmd> {
         use MCmd::*;
         let keys: Vec<(String, Dump, i64)> = self.state.iter().filter(|e| e.2 >= -1).cloned().collect();
@@ -563,6 +640,7 @@ impl<'a> Gen<'a> {
     }
     pub fn cmd(&mut self) -> MCmd {
         if let Some(c) = self.pending.pop() { return c; }
+        if !self.stale.is_empty() && self.chance(0.5) { if let Some(c) = self.stale_scenario() { return c; } }
         if self.chance(0.22) { if let Some(c) = self.scenario() { return c; } }
         self.cmd_random()
     }
@@ -780,6 +858,17 @@ pub fn laws(c: &MCmd, r: &RespValue, before: &Snapshot, after: &Snapshot, now: u
                     out.push(f("expire-semantics", format!("{} {:?} (deadline {} at clock {}, flags nx/xx/gt/lt {:?}) on a key with PTTL {:?}: reply {:?}, PTTL after {:?}; Redis: reply {}, PTTL after {:?}",
                         c.name(), k, when, now, flags, pttl_before(k), r, pttl_after(k), wr, wp))); }
             }
+        }
+        Del(ks) => {
+            // DEL replies the number of keys that existed (a key past its deadline does not, evicted or not)
+            let mut seen: Vec<&String> = Vec::new();
+            let want = ks.iter().filter(|k| { let first = !seen.contains(k); seen.push(*k); first && find(before, k).is_some() }).count() as i64;
+            if *r != RespValue::Integer(want) { out.push(f("del-counts-visible-keys", format!("DEL {:?} replied {:?}; {} of these keys were visible (a key whose deadline has passed is not, even if it has not been evicted yet)", ks, r, want))); }
+        }
+        Set(k, v, XOpt::KeepTtl, nx, xx, _) => if kind.is_none() && !*xx && find(before, k).is_none() {
+            let _ = nx;
+            if !matches!(find(after, k), Some((_, Dump::S(b), -1)) if b == v) {
+                out.push(f("set-keepttl-on-absent-key", format!("SET {:?} .. KEEPTTL on a key that was not visible must create it without a TTL; after: {:?} (a lazily expired entry's deadline must not be inherited)", k, find(after, k).map(|e| (dump_text(&e.1), e.2))))); }
         }
         Rename(a, b) | RenameNx(a, b) => {
             let moved = match c { Rename(..) => kind.is_none(), _ => *r == RespValue::Integer(1) };
